@@ -148,6 +148,42 @@ func effToks(effs []Effect) string {
 	return strings.Join(s, " ")
 }
 
+// canonEffs / canonModel: the effects of the real driver and of the model, compared MODULO flushes
+// with nothing pending (walstore.Flush returns at once then; a driver that skips such a flush, or
+// performs one more, behaves the same).
+func canonEffs(effs []Effect) string {
+	var s []string
+	for _, e := range effs {
+		if e.Tok == "flush" && e.Pend == 0 {
+			continue
+		}
+		s = append(s, e.Tok)
+	}
+	return strings.Join(s, " ")
+}
+
+// canonIdx: the number of effects among the first k of the process that are not no-op flushes — how
+// crash points and fault positions are counted towards the Lean driver.
+func canonIdx(ep *epoch, k int) int {
+	n := 0
+	for i := 0; i < k && i < len(ep.effects); i++ {
+		if !(ep.effects[i].Tok == "flush" && ep.effects[i].Pend == 0) {
+			n++
+		}
+	}
+	return n
+}
+
+func canonModel(ans string) string {
+	var s []string
+	for _, t := range strings.Fields(ans) {
+		if t != "flush0" {
+			s = append(s, t)
+		}
+	}
+	return strings.Join(s, " ")
+}
+
 // tie sends the observed state machine outputs of one process instance to the Lean model of the
 // driver and compares the effects the model performs with the ones the real driver performed.
 func (rn *runner) tie(ep *epoch, rp Replay) {
@@ -164,8 +200,8 @@ func (rn *runner) tie(ep *epoch, rp Replay) {
 	check := func(ci int, mode string) {
 		c := ep.calls[ci]
 		ans := rn.ask(mode + " " + strings.Join(c.Acts, " "))
-		want := strings.TrimSpace(strings.TrimPrefix(strings.TrimPrefix(ans, "0"), "1"))
-		got := effToks(byCall[ci])
+		want := canonModel(strings.TrimSpace(strings.TrimPrefix(strings.TrimPrefix(ans, "0"), "1")))
+		got := canonEffs(byCall[ci])
 		rn.res.Compared(1)
 		if ans == "bad-op" || want != got {
 			rn.res.Mismatch(lib.Mismatch{Sig: "execute-effects-" + mode, Input: map[string]any{"replay": rp, "call": c},
@@ -184,7 +220,7 @@ func (rn *runner) tie(ep *epoch, rp Replay) {
 		}
 		wantEff, wantActs := "", ""
 		if len(f) == 2 {
-			wantEff = strings.TrimSpace(strings.TrimPrefix(strings.TrimPrefix(f[0], "0"), "1"))
+			wantEff = canonModel(strings.TrimSpace(strings.TrimPrefix(strings.TrimPrefix(f[0], "0"), "1")))
 			wantActs = strings.TrimSpace(f[1])
 		}
 		real := append([]string{}, c.Acts...)
@@ -195,7 +231,7 @@ func (rn *runner) tie(ep *epoch, rp Replay) {
 		if len(f) != 2 || wantActs != strings.Join(real, " ") {
 			rn.res.Mismatch(lib.Mismatch{Sig: "state-machine-actions-" + what, Input: map[string]any{"replay": rp, "call": c},
 				Model: ans, Impl: strings.Join(real, " ")})
-		} else if got := effToks(byCall[ci]); wantEff != got {
+		} else if got := canonEffs(byCall[ci]); wantEff != got {
 			rn.res.Mismatch(lib.Mismatch{Sig: "execute-effects-" + what, Input: map[string]any{"replay": rp, "call": c},
 				Model: ans, Impl: got})
 		}
@@ -281,6 +317,80 @@ var futureQuorumLogged = func() bool {
 	return false
 }()
 
+// pendingCommitScript: the situation of finding F5 for 4 equal validators, node index 3, height h,
+// proposer of round 1 = index p1 (round 0's proposal never reaches the node), value val. After it
+// the node has broadcast its round-1 precommit for val, its own vote completes the quorum, and the
+// commit is PENDING: `process` looked at the commit rule for round 0 only (the round of the late
+// prevote that started the chain of rules). The obsolete timers t:0:h:1 and t:1:h:1 are armed.
+func pendingCommitScript(h uint64, p1 int, val uint64) []Input {
+	return []Input{
+		{K: "t", Step: 0, H: h, R: 0},
+		{K: "v", H: h, R: 0, Sender: 0, Val: val}, {K: "v", H: h, R: 0, Sender: 1, Val: val},
+		{K: "t", Step: 1, H: h, R: 0},
+		{K: "c", H: h, R: 0, Sender: 0, Nil: true}, {K: "c", H: h, R: 0, Sender: 1, Nil: true},
+		{K: "t", Step: 2, H: h, R: 0},
+		{K: "p", H: h, R: 1, Sender: p1, VR: 0, Val: val},
+		{K: "v", H: h, R: 1, Sender: 0, Val: val}, {K: "v", H: h, R: 1, Sender: 1, Val: val},
+		{K: "c", H: h, R: 1, Sender: 0, Val: val}, {K: "c", H: h, R: 1, Sender: 1, Val: val},
+		{K: "v", H: h, R: 0, Sender: 2, Val: val},
+	}
+}
+
+// ignoredTimeoutInert: does ProcessTimeout leave the rules alone when the timeout does not apply
+// (proposed-fixes/C13-ignored-timeout-runs-rules.diff applied)? Probed once on the real machine in
+// the situation of F5; selects the variant of the model machine in c13drv (tmMachineT / tmMachineL).
+// The probe never decides about a violation: on the code as it is the directed scripts reproduce
+// F5 through the real driver.
+var ignoredTimeoutInert = func() bool {
+	cfg := &Cfg{Powers: []uint64{1, 1, 1, 1}, Tbl: []int{1, 0}, Me: 3, AppMode: "stable"}
+	sm := tendermint.New[V, H, A](log.NewNopZapLogger(), addrOf(cfg.Me), &app{mode: "stable", height: 1, cfg: cfg}, cfg, 1)
+	sm.ProcessStart(0)
+	for _, in := range pendingCommitScript(1, 0, 41) {
+		switch in.K {
+		case "t":
+			sm.ProcessTimeout(types.Timeout{Step: types.Step(in.Step), Height: types.Height(in.H), Round: types.Round(in.R)})
+		case "p":
+			v := valOf(in.Val)
+			sm.ProcessProposal(&starknet.Proposal{MessageHeader: in.header(), ValidRound: types.Round(in.VR), Value: &v})
+		case "v":
+			sm.ProcessPrevote(&starknet.Prevote{MessageHeader: in.header(), ID: in.id()})
+		case "c":
+			sm.ProcessPrecommit(&starknet.Precommit{MessageHeader: in.header(), ID: in.id()})
+		}
+	}
+	return len(sm.ProcessTimeout(types.Timeout{Step: 0, Height: 1, Round: 1})) == 0
+}()
+
+// fetchErrorResetsActions: does driver.listen forget the previous input's actions when the block
+// fetcher reports an error (`actions = nil` in that branch)? Set by staleActionsProbe before any
+// model is started; the code as it is does not (it executes them again).
+var fetchErrorResetsActions bool
+
+// startModel starts one Lean driver process and tells it which variant of the state machine the
+// real code is.
+func startModel(f lib.Flags, res *lib.Result) *lib.Driver {
+	drv, err := lib.StartDriver(f.Driver)
+	if err != nil {
+		res.Fatalf("Lean driver did not start: %v", err)
+		return drv
+	}
+	v := "0"
+	if ignoredTimeoutInert {
+		v = "1"
+	}
+	if a, err := drv.Ask("variant timeout-inert " + v); err != nil || a != "ok" {
+		res.Fatalf("Lean driver did not accept the machine variant: %q %v", a, err)
+	}
+	v = "0"
+	if fetchErrorResetsActions {
+		v = "1"
+	}
+	if a, err := drv.Ask("variant fetch-error-resets-actions " + v); err != nil || a != "ok" {
+		res.Fatalf("Lean driver did not accept the listen variant: %q %v", a, err)
+	}
+	return drv
+}
+
 func entryHeight(tok string) int {
 	f := strings.Split(tok, ":")
 	switch f[0] {
@@ -346,7 +456,10 @@ func twinDump(cfg *Cfg, boot uint64, entries []string) string {
 // hypotheses checks the shape assumptions of the Lean theorems (ReplaySafe) on every observed
 // state machine call; a failure is reported as a model/implementation difference.
 func (rn *runner) hypotheses(ep *epoch, rp Replay) {
-	for _, c := range ep.calls {
+	for ci, c := range ep.calls {
+		if c.Kind == "sync" {
+			continue // ProcessSync is several calls in one (proposal, precommits): covered by the sync family's tie
+		}
 		// a Start entry must carry the height that is being started
 		if len(c.Acts) > 0 && strings.HasPrefix(c.Acts[0], "W/s:") && (c.Kind == "start" || strings.HasPrefix(c.In, "s:")) &&
 			uint64(entryHeight(c.Acts[0][2:])) != c.HBefore {
@@ -405,7 +518,14 @@ func (rn *runner) hypotheses(ep *epoch, rp Replay) {
 					}
 				}
 			}
-			if ep.cfg.AppMode == "store" && involvesRestored {
+			visible := false
+			for _, a := range c.Acts {
+				if k := strings.SplitN(a, ":", 2)[0]; k == "BP" || k == "BV" || k == "BC" || k == "CM" {
+					visible = true
+				}
+			}
+			switch {
+			case ep.cfg.AppMode == "store" && involvesRestored:
 				// consequence of the lost proposal store: validity of a replayed proposal flips back to
 				// "valid" when the build result arrives again, the rules become enabled without any
 				// input being processed, and the next input of any kind (e.g. an obsolete timeout,
@@ -413,7 +533,19 @@ func (rn *runner) hypotheses(ep *epoch, rp Replay) {
 				// that was lost and has arrived again in this process instance
 				violate(lib.Violation{Sig: "unlogged-input-made-visible-proposal-store-not-durable",
 					What: fmt.Sprintf("input %s wrote nothing to the log but produced %v", c.In, c.Acts), Replay: rp})
-			} else {
+			case c.Kind == "t" && len(c.Acts) == 1 && strings.HasPrefix(c.Acts[0], "CM:") && obsoleteTimeout(ep, ci):
+				// F5: ProcessTimeout runs the rules although onTimeout* ignored the timeout (it is for an
+				// earlier round or step), and the rules take a commit that an earlier call left pending
+				// (process checks the commit rule only for the round of the message just received)
+				rn.res.Hit("obsolete-timeout-takes-pending-commit")
+				violate(lib.Violation{Sig: "obsolete-timeout-takes-pending-commit-unlogged",
+					What: fmt.Sprintf("at height %d the timeout %s — obsolete: the machine is past that round/step, nothing is written to the log for it — returned %v: the decision is delivered because of an input a restarted node does not find in its log",
+						c.HBefore, c.In, c.Acts), Replay: rp})
+			case visible:
+				// the property's last sentence, directly: an input made something visible and is not logged
+				violate(lib.Violation{Sig: "unlogged-input-made-visible",
+					What: fmt.Sprintf("at height %d input %s wrote nothing to the log but produced %v", c.HBefore, c.In, c.Acts), Replay: rp})
+			default:
 				rn.res.Mismatch(lib.Mismatch{Sig: "hyp-unlogged-input-with-actions", Input: rp, Impl: c})
 			}
 		}
@@ -428,6 +560,7 @@ func (rn *runner) hypotheses(ep *epoch, rp Replay) {
 
 type lineage struct {
 	unlogged bool // an ancestor counted a future-height precommit without logging it (F4)
+	trigger  bool // the process being restarted took a commit on an obsolete, unlogged timeout before the crash point (F5)
 	aliased  bool // an ancestor logged a Start entry with a height other than the one it started
 	votes    []vote
 	props    map[[2]int][]string
@@ -458,6 +591,26 @@ func (rn *runner) oracle(cfg *Cfg, ep *epoch, lin lineage, rp Replay, bootEffect
 		}
 		violate(lib.Violation{Sig: sig, What: fmt.Sprintf("the driver performed %q while log records were pending (not flushed); "+
 			"a crash right after it loses the input that caused it", ep.unflushedVisible[0]), Replay: rp})
+	}
+	// (1b) a call that logs its input makes nothing visible before the entry has been appended (and,
+	// by (1), flushed): the entry is the FIRST thing the driver does for the input
+	appendedBy := map[int]bool{}
+	for _, e := range ep.effects {
+		if e.Call < 0 || e.Call >= len(ep.calls) || ep.calls[e.Call].Replay {
+			continue
+		}
+		if strings.HasPrefix(e.Tok, "append/") {
+			appendedBy[e.Call] = true
+		}
+		hasW := false
+		for _, a := range ep.calls[e.Call].Acts {
+			hasW = hasW || strings.HasPrefix(a, "W/")
+		}
+		if e.visible() && hasW && !appendedBy[e.Call] {
+			violate(lib.Violation{Sig: "visible-effect-before-own-log-entry",
+				What: fmt.Sprintf("input %s: the driver performed %q before it appended the input's log entry (actions %v)", ep.calls[e.Call].In, e.Tok, ep.calls[e.Call].Acts), Replay: rp})
+			break
+		}
 	}
 	// (2) no vote conflicting with one broadcast before the crash
 	own := proposalsOf(ep.effects)
@@ -540,6 +693,10 @@ func (rn *runner) oracle(cfg *Cfg, ep *epoch, lin lineage, rp Replay, bootEffect
 			if lin.unlogged {
 				sig += f4
 			}
+			if lin.trigger {
+				// the twin is fed the log only: it lacks the obsolete timeout that made the dead process commit
+				sig += f5
+			}
 			if lin.aliased {
 				// known cause: the Start entry of a height that committed inside ProcessStart carries
 				// the NEXT height, survives the prune and is replayed as the start of the next height
@@ -556,6 +713,10 @@ func (rn *runner) oracle(cfg *Cfg, ep *epoch, lin lineage, rp Replay, bootEffect
 		if ep.failAt >= 0 && kind == "run" && !strings.Contains(e, "panic") {
 			continue // the injected fault makes Run return its error: expected
 		}
+		if kind == "unpersisted" {
+			violate(lib.Violation{Sig: "commit-acknowledged-without-persisted-block", What: e, Replay: rp})
+			continue
+		}
 		if cfg.AppMode == "store" && (kind == "commitlistener" || (kind == "run" && strings.Contains(e, "commit listener failed"))) {
 			// the replayed commit cannot be delivered: the build result of the decided value was
 			// only in the in-memory proposal store of the dead process
@@ -566,6 +727,68 @@ func (rn *runner) oracle(cfg *Cfg, ep *epoch, lin lineage, rp Replay, bootEffect
 	}
 	_ = storeLost
 }
+
+// smPos: (round, step) of the state machine before call n of the process, reconstructed from the
+// actions it returned so far (a process starts in round 0, step propose; a commit starts the next
+// height the same way). Own messages and timers tell: ST:0 / BP = a round was started (step
+// propose), BV = step prevote, BC = step precommit.
+func smPos(ep *epoch, n int) (round, step int) {
+	for j := 0; j < n && j < len(ep.calls); j++ {
+		for _, a := range ep.calls[j].Acts {
+			f := strings.Split(a, ":")
+			switch f[0] {
+			case "ST":
+				if f[1] == "0" {
+					round, step = atoi(f[3]), 0
+				}
+			case "BP":
+				round, step = atoi(f[2]), 0
+			case "BV":
+				round, step = atoi(f[2]), 1
+			case "BC":
+				round, step = atoi(f[2]), 2
+			case "CM":
+				round, step = 0, 0
+			}
+		}
+	}
+	return round, step
+}
+
+// obsoleteTimeout: call ci is a timeout that onTimeoutPropose/Prevote/Precommit ignores — it is
+// for another height or round than the machine's, or (propose, prevote) for another step.
+func obsoleteTimeout(ep *epoch, ci int) bool {
+	c := ep.calls[ci]
+	if c.Kind != "t" {
+		return false
+	}
+	f := strings.Split(c.In, ":")
+	st, h, r := atoi(f[1]), uint64(atoi(f[2])), atoi(f[3])
+	round, step := smPos(ep, ci)
+	return h != c.HBefore || r != round || (st < 2 && st != step)
+}
+
+// unloggedTrigger: among the first n calls of the process, an obsolete timeout (nothing logged)
+// made the state machine act (F5). From then on the log does not determine the machine's state: an
+// uncrashed machine fed the log stays where the trigger was needed.
+func unloggedTrigger(ep *epoch, n int) bool {
+	for j := 0; j < n && j < len(ep.calls); j++ {
+		if isTriggerCall(ep, j) {
+			return true
+		}
+	}
+	return false
+}
+
+func isTriggerCall(ep *epoch, j int) bool {
+	if j < 0 || j >= len(ep.calls) {
+		return false
+	}
+	c := ep.calls[j]
+	return c.Kind == "t" && len(c.Acts) > 0 && !strings.HasPrefix(c.Acts[0], "W/") && obsoleteTimeout(ep, j)
+}
+
+const f5 = "-commit-taken-by-obsolete-timeout"
 
 // unloggedQuorumVote: among the first n calls of the process, one returned TriggerSync without a
 // WriteWAL — the machine counted a precommit that is not in the log (F4). From then on the log
@@ -700,7 +923,7 @@ func (rn *runner) explore(cfg *Cfg, script []Input, startIdx int, ep *epoch, lin
 			}
 		}
 		rn.ask("push")
-		ans := rn.ask(fmt.Sprintf("crash %d", k))
+		ans := rn.ask(fmt.Sprintf("crash %d", canonIdx(ep, k)))
 		rec, err := startEpoch(cfg, rn.dir(), ep.snaps[ep.snapAt[k]], ep.chainAt[k], uint64(depth+1), -1)
 		if err != nil {
 			violate(lib.Violation{Sig: "restart-fails", What: err.Error(), Replay: rp})
@@ -753,6 +976,7 @@ func (rn *runner) explore(cfg *Cfg, script []Input, startIdx int, ep *epoch, lin
 			callsBefore = ep.effects[k].Call + 1
 		}
 		nl.unlogged = lin.unlogged || unloggedQuorumVote(ep, callsBefore)
+		nl.trigger = unloggedTrigger(ep, callsBefore)
 		if os.Getenv("C13_DEBUG") != "" {
 			fmt.Fprintf(os.Stderr, "KILL %+v parent effects[:k]=%s\n  image chain=%d loaded=%v\n  durable(recording order)=%v\n  rec calls:\n", kl, effToks(ep.effects[:k]), ep.chainAt[k], rec.loaded,
 				append(append([]string{}, ep.loaded...), ep.appended[:ep.flushedN[k]]...))
@@ -761,6 +985,17 @@ func (rn *runner) explore(cfg *Cfg, script []Input, startIdx int, ep *epoch, lin
 			}
 		}
 		rn.oracle(cfg, rec, nl, rp, bootBoundary(rec), twin)
+		// a commit that is refused DURING REPLAY (the restarted process re-executes a commit whose
+		// delivery the dead process had not completed): replay must return the error, Run must end
+		if depth == 0 && (rn.exhaustive || r.Chance(1, 3)) {
+			for j, e := range rec.effects[:bootBoundary(rec)] {
+				if strings.HasPrefix(e.Tok, "deliver:") {
+					rn.replayFault(cfg, ep, k, j, Replay{Cfg: *cfg, Script: script, Kills: nl.kills,
+						Note: fmt.Sprintf("the commit listener refuses the commit that the restarted process re-executes while replaying (its effect %d)", j)})
+					break
+				}
+			}
+		}
 		// Recovered state against the UNCRASHED LIVE process: when nothing was pending at the crash
 		// point, the restarted node must be exactly where the dead process was — after the call in
 		// progress if its entry had been appended (then it was flushed), else after the previous call.
@@ -793,6 +1028,11 @@ func (rn *runner) explore(cfg *Cfg, script []Input, startIdx int, ep *epoch, lin
 					sig := "recovered-state-differs-from-live-run"
 					if nl.unlogged {
 						sig += f4
+					}
+					if k < n && isTriggerCall(ep, ep.effects[k].Call) {
+						// the dead process was executing the commit an obsolete timeout had triggered; the
+						// trigger is not in the log, the restarted node is back in front of the commit
+						sig += f5
 					}
 					violate(lib.Violation{Sig: sig, What: "nothing was pending at the crash point, yet the restarted node is not in the state the dead process was in: " +
 						diffHint(rec.dumpBoot, ref), Replay: rp})
@@ -989,12 +1229,16 @@ func (rn *runner) silentNetwork(cfg *Cfg, script []Input, ep *epoch, k int) {
 	if visT != "" {
 		rn.res.Hit("silent-network-twin-acts-on-timers")
 	}
+	sfx := ""
+	if k < len(ep.effects) && isTriggerCall(ep, ep.effects[k].Call) {
+		sfx = f5
+	}
 	if visR != visT {
-		violate(lib.Violation{Sig: "restarted-node-differs-from-uncrashed-twin-in-silent-network",
+		violate(lib.Violation{Sig: "restarted-node-differs-from-uncrashed-twin-in-silent-network" + sfx,
 			What:   fmt.Sprintf("with no more messages and all pending timers firing the uncrashed twin broadcasts [%s], the restarted node [%s]", visT, visR),
 			Replay: rp})
 	} else if dumpR != dumpT {
-		violate(lib.Violation{Sig: "restarted-node-state-differs-from-uncrashed-twin-in-silent-network",
+		violate(lib.Violation{Sig: "restarted-node-state-differs-from-uncrashed-twin-in-silent-network" + sfx,
 			What: "after the pending timers fired: " + diffHint(dumpR, dumpT), Replay: rp})
 	}
 }
@@ -1006,7 +1250,7 @@ func (rn *runner) graceful(cfg *Cfg, script []Input, ep *epoch) {
 	rp := Replay{Cfg: *cfg, Script: script, Note: "regular stop after the script, then restart"}
 	rn.ask("push")
 	rn.ask("close")
-	ans := rn.ask(fmt.Sprintf("crash %d", len(ep.effects)+1))
+	ans := rn.ask("crash all")
 	rec, err := startEpoch(cfg, rn.dir(), ep.closedSnap, ep.chainNow, 1, -1)
 	if err != nil {
 		violate(lib.Violation{Sig: "restart-fails-after-regular-stop", What: err.Error(), Replay: rp})
@@ -1030,6 +1274,7 @@ func (rn *runner) graceful(cfg *Cfg, script []Input, ep *epoch) {
 	rn.hypotheses(rec, rp)
 	lin := lineage{props: map[[2]int][]string{}}.extend(ep, len(ep.effects), Kill{K: len(ep.effects)})
 	lin.unlogged = unloggedQuorumVote(ep, len(ep.calls))
+	lin.trigger = unloggedTrigger(ep, len(ep.calls))
 	rn.oracle(cfg, rec, lin, rp, bootBoundary(rec), twinDump(cfg, ep.boot, append(append([]string{}, ep.loaded...), ep.appended...)))
 	if cfg.AppMode == "stable" {
 		rn.res.Compared(1)
@@ -1051,28 +1296,39 @@ func (rn *runner) graceful(cfg *Cfg, script []Input, ep *epoch) {
 // faulty: re-run the script with an injected fault at effect k of the uncrashed run (the k-th
 // effect is a Flush that returns an error, or a commit the listener refuses). The driver must stop
 // without making anything further visible; a restart must not contradict what was sent.
-func (rn *runner) faulty(cfg *Cfg, script []Input, ref *epoch, k int) {
+func (rn *runner) faulty(cfg *Cfg, script []Input, ref *epoch, k int, cancelInCommit int) {
 	rp := Replay{Cfg: *cfg, Script: script, Note: fmt.Sprintf("injected fault at effect %d (%s)", k, ref.effects[k].Tok)}
+	if cancelInCommit > 0 {
+		rp.Note = fmt.Sprintf("the context is cancelled while the commit listener %s, at effect %d (%s)",
+			[]string{"", "tries to hand the block to the persister", "waits for the persister's acknowledgement"}[cancelInCommit], k, ref.effects[k].Tok)
+	}
 	ep, err := startEpoch(cfg, rn.dir(), "", cfg.C0, 0, k)
 	if ep == nil {
 		rn.res.Fatalf("fault-injection run could not start: %v", err)
 		return
 	}
+	ep.cancelInCommit = cancelInCommit
 	defer ep.cleanup()
 	for i := 0; err == nil && i < len(script) && ep.failedAt < 0; i++ {
 		err = ep.feed(i, script[i])
 	}
 	ep.stop()
-	kind := strings.SplitN(ref.effects[k].Tok, ":", 2)[0]
+	kind := strings.SplitN(strings.SplitN(ref.effects[k].Tok, ":", 2)[0], "/", 2)[0]
+	if cancelInCommit > 0 {
+		kind = fmt.Sprintf("deliver-by-cancel-%d", cancelInCommit)
+	}
 	rn.res.Hit("fault-injected-" + kind)
 	if ep.failedAt < 0 {
 		rn.res.Hit("fault-not-reached")
 		return
 	}
-	stopped := false
+	stopped := cancelInCommit > 0 // the context was cancelled: Run returns nil or the context's error
 	for _, e := range ep.errs {
 		if strings.HasPrefix(e, "run: ") && !strings.Contains(e, "panic") {
 			stopped = true
+		}
+		if strings.HasPrefix(e, "unpersisted:") {
+			violate(lib.Violation{Sig: "commit-acknowledged-without-persisted-block", What: e, Replay: rp})
 		}
 	}
 	if !stopped {
@@ -1094,6 +1350,27 @@ func (rn *runner) faulty(cfg *Cfg, script []Input, ref *epoch, k int) {
 		}
 		return
 	}
+	// correspondence with the model of the error exit (ModelStop.lean, `stopTrace`): the stopped
+	// process performed exactly the effects in front of the failing one, then Close flushed; the
+	// image it left is the model's
+	if rn.drv != nil {
+		rn.ask("push")
+		ans := rn.ask(fmt.Sprintf("stop %d 1", canonIdx(ref, k)))
+		rn.res.Compared(2)
+		got := canonEffs(ep.effects)
+		if ep.pending > 0 {
+			got = strings.TrimSpace(got + " flush")
+		}
+		if got != canonModel(ans) {
+			rn.res.Mismatch(lib.Mismatch{Sig: "effects-of-process-stopped-by-error", Input: rp, Model: ans, Impl: got})
+		}
+		img := rn.ask("crash all")
+		if want := fmt.Sprintf("h=%d log=%s", rec.boot, joinOrDash(rec.loaded)); want != stripPruned(img) {
+			rn.res.Mismatch(lib.Mismatch{Sig: "image-after-error-stop", Input: rp, Model: img, Impl: want})
+		}
+		rn.ask("pop")
+		rn.res.Hit("error-stop-compared-" + kind)
+	}
 	for i := 0; i < len(script); i++ { // everything is delivered again (peers resend)
 		if script[i].K == "t" {
 			continue
@@ -1105,11 +1382,40 @@ func (rn *runner) faulty(cfg *Cfg, script []Input, ref *epoch, k int) {
 	rec.stop()
 	lin := lineage{props: map[[2]int][]string{}}.extend(ep, len(ep.effects), Kill{K: k})
 	lin.unlogged = unloggedQuorumVote(ep, len(ep.calls))
+	lin.trigger = unloggedTrigger(ep, len(ep.calls))
 	// Close has flushed whatever was pending, and a refused commit must not have pruned anything:
 	// the restarted node must be where an uncrashed machine fed ALL logged inputs is
 	rn.oracle(cfg, rec, lin, rp, bootBoundary(rec), twinDump(cfg, ep.boot, ep.appended))
 	rn.res.Case(fmt.Sprintf("%v|%v|fault%d", *cfg, script, k), true)
 	rec.cleanup()
+}
+
+// replayFault: restart on the image of crash point k of `ep` with a commit listener that refuses
+// the delivery which is effect j of the new process (a replayed commit).
+func (rn *runner) replayFault(cfg *Cfg, ep *epoch, k, j int, rp Replay) {
+	rec, err := startEpoch(cfg, rn.dir(), ep.snaps[ep.snapAt[k]], ep.chainAt[k], 1, j)
+	if rec == nil {
+		rn.res.Fatalf("replay-fault run could not start: %v", err)
+		return
+	}
+	defer rec.cleanup()
+	rec.stop()
+	rn.res.Hit("fault-injected-deliver-during-replay")
+	if rec.failedAt < 0 {
+		rn.res.Hit("fault-not-reached")
+		return
+	}
+	if err == nil {
+		violate(lib.Violation{Sig: "driver-continues-after-failed-deliver-during-replay",
+			What: "the commit listener refused a commit re-executed by replay; Run did not return, the driver went on to listen", Replay: rp})
+	}
+	for _, e := range rec.effects[rec.failedAt:] {
+		if e.visible() {
+			violate(lib.Violation{Sig: "visible-effect-after-failed-deliver-during-replay",
+				What: fmt.Sprintf("after the refused commit the driver still performed %q", e.Tok), Replay: rp})
+		}
+	}
+	rn.res.Case(fmt.Sprintf("%v|%v|rfault%d", *cfg, rp.Kills, j), true)
 }
 
 func firstOther(cfg *Cfg) int {
@@ -1244,6 +1550,9 @@ func (rn *runner) rootCase(cfg *Cfg, script []Input, genLen int, r *lib.RNG, fix
 				rn.res.Hit("root-run-with-unlogged-future-quorum-precommit")
 				violate(lib.Violation{Sig: "live-state-not-function-of-log" + f4,
 					What: "the live machine's state is not what a fresh machine reaches on the node's own log: " + diffHint(live, tw), Replay: rp})
+			} else if unloggedTrigger(ep, len(ep.calls)) {
+				violate(lib.Violation{Sig: "live-state-not-function-of-log" + f5,
+					What: "the live machine committed on an obsolete timeout that is not in the log; a fresh machine fed the node's own log does not commit: " + diffHint(live, tw), Replay: rp})
 			} else {
 				rn.res.Mismatch(lib.Mismatch{Sig: "hyp-live-state-not-function-of-log", Input: rp, Impl: diffHint(live, tw)})
 			}
@@ -1309,14 +1618,36 @@ func (rn *runner) rootCase(cfg *Cfg, script []Input, genLen int, r *lib.RNG, fix
 	}
 	// fault injection at (a sample of) the flushes and commit deliveries of the run
 	var fk []int
+	var fa, fd []int
 	for k, e := range ep.effects {
-		if e.Tok == "flush" || strings.HasPrefix(e.Tok, "deliver:") {
+		if e.Tok == "flush" {
 			fk = append(fk, k)
+		}
+		if strings.HasPrefix(e.Tok, "deliver:") {
+			fd = append(fd, k)
+		}
+		if strings.HasPrefix(e.Tok, "append/") {
+			fa = append(fa, k)
 		}
 	}
 	lib.Shuffle(r, fk)
-	for i := 0; i < len(fk) && i < rn.f.Scale(2, 6); i++ {
-		rn.faulty(cfg, script, ep, fk[i])
+	lib.Shuffle(r, fa)
+	lib.Shuffle(r, fd)
+	for i := 0; i < len(fk) && i < rn.f.Scale(2, 4); i++ {
+		rn.faulty(cfg, script, ep, fk[i], 0)
+	}
+	// a SetWALEntry that fails (the driver must stop before anything of that input becomes visible)
+	for i := 0; i < len(fa) && i < rn.f.Scale(1, 3); i++ {
+		rn.faulty(cfg, script, ep, fa[i], 0)
+	}
+	// a commit the listener refuses; with the real commit listener also: the process is told to stop
+	// while the commit listener waits for the persister
+	for i := 0; i < len(fd) && i < rn.f.Scale(1, 3); i++ {
+		rn.faulty(cfg, script, ep, fd[i], 0)
+		if cfg.AppMode == "store" {
+			rn.faulty(cfg, script, ep, fd[i], 1)
+			rn.faulty(cfg, script, ep, fd[i], 2)
+		}
 	}
 }
 
@@ -1355,6 +1686,7 @@ func (rn *runner) staleActionsProbe() {
 	again := effToks(ep.effects[before:])
 	ep.stop()
 	rn.res.SetExtra("after_failed_block_fetch_the_driver_performs_the_previous_actions_again", again != "")
+	fetchErrorResetsActions = again == ""
 	if again != "" {
 		rn.res.Hit("stale-actions-reexecuted-after-failed-block-fetch")
 		for _, v := range votesOf(ep.effects[before:]) {
@@ -1479,6 +1811,22 @@ func directed() []Replay {
 				{K: "c", H: 1, R: 0, Sender: 0, Val: 41}, {K: "c", H: 1, R: 0, Sender: 1, Val: 41},
 				{K: "t", Step: 0, H: 2, R: 0}, {K: "t", Step: 1, H: 2, R: 0},
 				{K: "c", H: 2, R: 0, Sender: 0, Val: 53}, {K: "c", H: 2, R: 0, Sender: 1, Val: 53}}},
+		{Note: "F5: a late prevote of round 0 completes the polka of the re-proposed value; the node's own round-1 prevote and precommit complete the quorums; the commit stays pending until the obsolete PROPOSE timer of round 1 fires; then height 2 goes on",
+			Cfg: Cfg{Powers: eq4, Tbl: []int{1, 0}, PMul: 0, Me: 3, C0: 0, AppMode: "stable"},
+			Script: append(pendingCommitScript(1, 0, 41), Input{K: "t", Step: 0, H: 1, R: 1},
+				Input{K: "p", H: 2, R: 0, Sender: 1, VR: -1, Val: 53}, Input{K: "v", H: 2, R: 0, Sender: 0, Val: 53}, Input{K: "v", H: 2, R: 0, Sender: 1, Val: 53})},
+		{Note: "F5 at a later height: the pending commit is taken when the obsolete PREVOTE timer of round 1 fires; a further round-1 precommit arrives after it",
+			Cfg: Cfg{Powers: eq4, Tbl: []int{1, 0}, PMul: 0, Me: 3, C0: 2, AppMode: "stable"},
+			Script: append(pendingCommitScript(3, 0, 3011), Input{K: "t", Step: 1, H: 3, R: 1},
+				Input{K: "c", H: 3, R: 1, Sender: 2, Val: 3011})},
+		{Note: "in-memory proposal store, third consequence: after the restart the replayed proposal is 'invalid' until its build result arrives again (the duplicate proposal); a third prevote completes the polka; then the obsolete propose timer makes the node precommit — an unlogged input with a visible effect",
+			Cfg: Cfg{Powers: eq4, Tbl: []int{1, 2, 3, 0}, PMul: 1, Me: 3, C0: 0, AppMode: "store"},
+			Script: []Input{{K: "p", H: 1, R: 0, Sender: 2, VR: -1, Val: 41}, {K: "v", H: 1, R: 0, Sender: 0, Val: 41}, {K: "v", H: 1, R: 0, Sender: 1, Val: 41},
+				{K: "v", H: 1, R: 0, Sender: 2, Val: 41}, {K: "p", H: 1, R: 0, Sender: 2, VR: -1, Val: 41}, {K: "t", Step: 0, H: 1, R: 0}}},
+		{Note: "the same situation, but the next input is a round-1 message (logged): the pending commit is taken by a logged input",
+			Cfg: Cfg{Powers: eq4, Tbl: []int{1, 0}, PMul: 0, Me: 3, C0: 0, AppMode: "stable"},
+			Script: append(pendingCommitScript(1, 0, 41), Input{K: "c", H: 1, R: 1, Sender: 2, Val: 41},
+				Input{K: "t", Step: 0, H: 1, R: 1})},
 	}
 }
 
@@ -1491,12 +1839,15 @@ func main() {
 	defer os.RemoveAll(base)
 	res.SetExtra("scratch", filepath.Dir(base))
 	res.SetExtra("real_machine_logs_future_quorum_precommit", futureQuorumLogged)
+	res.SetExtra("real_machine_ignores_obsolete_timeouts_completely", ignoredTimeoutInert)
 	if !futureQuorumLogged {
 		// regression of b154634
 		violate(lib.Violation{Sig: "future-quorum-precommit-counted-but-not-logged",
 			What:   "probe on the real state machine: the precommit that completes a quorum of a future height returns no WriteWAL although it is counted",
 			Replay: Replay{Note: "4 equal validators, node 4 at height 1 after ProcessStart: precommits c:3:0:{1,2,3}:9"}})
 	}
+
+	(&runner{f: f, res: res, base: filepath.Join(base, "probe")}).staleActionsProbe()
 
 	if f.Replay != "" {
 		var file struct {
@@ -1510,17 +1861,18 @@ func main() {
 			res.Fatalf("cannot read replay: %v", err)
 			lib.Finish(f, res)
 		}
-		drv, derr := lib.StartDriver(f.Driver)
-		if derr != nil {
-			res.Fatalf("Lean driver did not start: %v", derr)
-		}
+		drv := startModel(f, res)
 		rn := &runner{f: f, res: res, drv: drv, base: base}
 		kills := file.Replay.Kills
 		if kills == nil {
 			kills = []Kill{}
 		}
 		cfg := file.Replay.Cfg
-		rn.rootCase(&cfg, append([]Input{}, file.Replay.Script...), 0, lib.NewRNG(f.Seed), kills)
+		if cfg.Sync {
+			rn.syncCase(&cfg, append([]Input{}, file.Replay.Script...), nil, lib.NewRNG(f.Seed), true)
+		} else {
+			rn.rootCase(&cfg, append([]Input{}, file.Replay.Script...), 0, lib.NewRNG(f.Seed), kills)
+		}
 		os.RemoveAll(base)
 		flushViolations(res)
 		lib.Finish(f, res)
@@ -1533,6 +1885,7 @@ func main() {
 		id     uint64
 		minIn  int
 		long   bool
+		sync   bool
 	}
 	var jobs []job
 	for i, d := range directed() {
@@ -1548,7 +1901,20 @@ func main() {
 			jobs = append([]job{{cfg: c, script: sc, id: uint64(2000 + i), minIn: last, long: true}}, jobs...)
 		}
 	}
+	for i, d := range syncDirected() {
+		c := d.Cfg
+		jobs = append(jobs, job{cfg: &c, script: append([]Input{}, d.Script...), id: uint64(3000 + i), sync: true})
+	}
 	root := lib.NewRNG(f.Seed)
+	for i := 0; i < f.Scale(24, 200); i++ {
+		r := root.Fork(uint64(5000 + i))
+		c := &Cfg{Powers: []uint64{1, 1, 1, 1}, Tbl: []int{1, 0, 2}, PMul: lib.Pick(r, []int{1, 0, 2}), Me: 3, C0: uint64(r.Intn(3)), AppMode: "stable", Sync: true}
+		if r.Chance(1, 3) {
+			c.Powers = []uint64{1, 1, 1, 1, 1}
+			c.Tbl = []int{1, 0, 2, 4}
+		}
+		jobs = append(jobs, job{cfg: c, n: r.Range(6, 30), id: uint64(5000 + i), sync: true})
+	}
 	nRandom := f.Scale(160, 1200)
 	for i := 0; i < nRandom; i++ {
 		r := root.Fork(uint64(i))
@@ -1565,6 +1931,15 @@ func main() {
 		}
 		jobs = append(jobs, job{cfg: cfg, n: n, id: uint64(i)})
 	}
+	if only := os.Getenv("C13_ONLY"); only != "" { // debugging aid: run one family only
+		var keep []job
+		for _, j := range jobs {
+			if (strings.HasPrefix(only, "sync")) == j.sync && (only == "sync" || only == "nosync" || fmt.Sprintf("sync%d", j.id) == only) {
+				keep = append(keep, j)
+			}
+		}
+		jobs = keep
+	}
 	workers := 12
 	ch := make(chan job)
 	var wg sync.WaitGroup
@@ -1572,16 +1947,23 @@ func main() {
 		wg.Add(1)
 		go func(w int) {
 			defer wg.Done()
-			drv, err := lib.StartDriver(f.Driver)
-			if err != nil {
-				res.Fatalf("Lean driver did not start: %v", err)
-			}
+			drv := startModel(f, res)
 			rn := &runner{f: f, res: res, drv: drv, base: filepath.Join(base, fmt.Sprintf("w%d", w))}
 			for j := range ch {
 				rn.exhaustive = j.script != nil
 				rn.minInput, rn.deep, rn.noFault = j.minIn, j.long, j.long
 				if j.long {
 					rn.res.Hit("long-run-family")
+				}
+				if j.sync {
+					rr := root.Fork(j.id + 7777)
+					if j.script != nil {
+						rn.syncCase(j.cfg, j.script, nil, rr, true)
+					} else {
+						rn.syncCase(j.cfg, nil, syncGen(j.cfg, rr, j.n), rr, false)
+					}
+					rn.res.Hit("sync-family")
+					continue
 				}
 				rn.rootCase(j.cfg, j.script, j.n, root.Fork(j.id+7777), nil)
 			}
@@ -1595,7 +1977,6 @@ func main() {
 	}
 	close(ch)
 	wg.Wait()
-	(&runner{f: f, res: res, base: filepath.Join(base, "probe")}).staleActionsProbe()
 	os.RemoveAll(base)
 	flushViolations(res)
 	lib.Finish(f, res)
